@@ -453,7 +453,8 @@ Proof.
   rewrite Hi, Hr. eexists. split; [reflexivity|]. unfold R, with_os; simpl. auto.
 Qed.
 
-Ltac inv H := inversion H; subst; clear H.
+Ltac inv H := injection H; clear H; intros; subst.
+Global Opaque BLK.
 
 (* ADFI_write_file *)
 Lemma sim_write_file sf si fi b off data sf' :
@@ -487,7 +488,7 @@ Proof.
       assert (Hfull : iret = Z.of_nat (length (wr_buf c1))).
       { destruct (write_ret_cases _ _ _ _ Hw) as [X|X]; [exact X|]. rewrite X in Hi. discriminate. }
       destruct (sim_write _ _ _ _ _ Rro Hw Hfull) as (i2 & Hw' & Rro2).
-      rewrite Hw'. rewrite Hi. change (negb (DISK_BLOCK_SIZE =? DISK_BLOCK_SIZE)) with false. cbv iota.
+      rewrite Hw'. rewrite Hi. rewrite Z.eqb_refl. cbv [negb].
       rewrite <- Ru. cbn [c_ last_wr_file last_wr_block set_flush] in E |- *.
       destruct ((last_wr_file c1 =? fi) && (last_wr_block c1 >=? b) && (last_wr_block c1 <=? end_block));
         inv E; (eexists; split; [reflexivity|]; unfold R, with_cache; simpl; auto).
@@ -532,4 +533,97 @@ Proof.
     inv H. cbn [o_ with_cache] in Hfin.
     destruct (P2 s2 eq_refl Hfin) as (s2' & EI2 & (Rc2 & Ru2 & Rro2)). rewrite EI2.
     eexists. split; [reflexivity|]. unfold R, with_cache; simpl. rewrite Rc2. auto.
+Qed.
+
+(* ADFI_read_file *)
+Lemma sim_read_file sf si fi b off n bytes sf' :
+  R sf si -> read_file sf fi b off n = Done bytes sf' -> rderr (o_ sf') = false ->
+  exists si', read_file si fi b off n = Done bytes si' /\ R sf' si'.
+Proof.
+  intros HR H Hfin. destruct sf as [fo c u], si as [io c' u']. destruct HR as (Hc & Hu & Ho). simpl in Hc, Hu, Ho. subst c' u'.
+  unfold read_file in *. cbn [in_use c_ o_] in *.
+  destruct (negb u) eqn:Hin; [discriminate|].
+  destruct (Z.of_nat n + off >? DISK_BLOCK_SIZE).
+  - destruct (fseek_file (mkSt fo c u) b off) as [[] s2| |] eqn:Hs; try discriminate.
+    destruct (sim_fseek (mkSt fo c u) (mkSt io c u) _ _ _ ltac:(unfold R; simpl; auto) Hs) as (s2' & Hs' & (Rc & Ru & Rro)).
+    rewrite Hs'.
+    destruct (adfi_read (o_ s2) n) as [[[iret bs] o2]|] eqn:Hr; [|discriminate].
+    destruct (negb (iret =? Z.of_nat n)) eqn:Hi; [discriminate|]. inv H. cbn [o_ with_os] in Hfin.
+    destruct (sim_read _ _ _ _ _ _ Rro Hr Hfin) as (i2 & Hr' & Rro2).
+    rewrite Hr', Hi. eexists. split; [reflexivity|]. unfold R, with_os; simpl; auto.
+  - match type of H with
+    | match ?LD with _ => _ end = _ => set (loadF := LD) in *
+    end.
+    match goal with
+    | |- exists si', match ?LD with _ => _ end = _ /\ _ => set (loadI := LD)
+    end.
+    assert (P2 : forall s2, loadF = Done tt s2 -> rderr (o_ s2) = false -> exists s2', loadI = Done tt s2' /\ R s2 s2').
+    { intros s2 E Hrd. subst loadF loadI.
+      destruct ((num_in_rd c <? DISK_BLOCK_SIZE) || negb (b =? last_rd_block c) || negb (fi =? last_rd_file c)).
+      - destruct ((b =? last_wr_block c) && (fi =? last_wr_file c)).
+        + inv E. eexists. split; [reflexivity|]. unfold R, with_cache; simpl; auto.
+        + destruct (fseek_file (mkSt fo c u) b 0) as [[] s3| |] eqn:Hs; try discriminate.
+          destruct (sim_fseek (mkSt fo c u) (mkSt io c u) _ _ _ ltac:(unfold R; simpl; auto) Hs) as (s3' & Hs' & (Rc & Ru & Rro)).
+          rewrite Hs'.
+          destruct (adfi_read (o_ s3) BLK) as [[[iret bs] o2]|] eqn:Hr; [|discriminate].
+          destruct (iret <=? 0) eqn:Hi; [discriminate|]. inv E. cbn [o_ with_cache] in Hrd.
+          destruct (sim_read _ _ _ _ _ _ Rro Hr Hrd) as (i2 & Hr' & Rro2).
+          rewrite Hr', Hi, <- Ru. eexists. split; [reflexivity|]. unfold R, with_cache; simpl; auto.
+      - inv E. eexists. split; [reflexivity|]. unfold R; simpl; auto. }
+    destruct loadF as [[] s2| |] eqn:EL; try discriminate.
+    inv H.
+    destruct (P2 sf' eq_refl Hfin) as (s2' & EI2 & (Rc2 & Ru2 & Rro2)). rewrite EI2.
+    eexists. split; [rewrite Rc2; reflexivity|]. unfold R; auto.
+Qed.
+
+(* ADFI_flush_buffers *)
+Lemma sim_flush sf si fi cl sf' :
+  R sf si -> flush_buffers sf fi cl = Done tt sf' -> rderr (o_ sf') = false ->
+  exists si', flush_buffers si fi cl = Done tt si' /\ R sf' si'.
+Proof.
+  intros HR H Hfin. pose proof HR as (Hc & Hu & Ho).
+  unfold flush_buffers in *. rewrite <- Hu, <- Hc.
+  destruct (negb (in_use sf)); [discriminate|].
+  destruct (fi =? last_wr_file (c_ sf)).
+  - destruct (write_file sf fi MAXIMUM_32_BITS 0 []) as [[] s1| |] eqn:Hw.
+    + assert (Hrd1 : rderr (o_ s1) = false).
+      { destruct cl; cbn [with_cache o_ c_] in H;
+          destruct (_ && _) in H; inv H; cbn [o_ with_cache] in Hfin; exact Hfin. }
+      destruct (sim_write_file _ _ _ _ _ _ _ HR Hw Hrd1) as (s1' & Hw' & (Rc & Ru & Rro)).
+      rewrite Hw'.
+      destruct cl; cbn [with_cache c_ o_ in_use] in *; rewrite <- ?Rc.
+      * destruct ((fi =? last_rd_file (set_flush (set_wr_id (c_ s1) (-2) (-2)) (-2))) && true); inv H;
+          (eexists; split; [reflexivity|]; unfold R, with_cache; simpl; rewrite <- ?Rc; auto).
+      * destruct ((fi =? last_rd_file (c_ s1)) && false); inv H;
+          (eexists; split; [reflexivity|]; unfold R, with_cache; simpl; rewrite <- ?Rc; auto).
+    + destruct (_ && _) in H; discriminate.
+    + discriminate.
+  - destruct ((fi =? last_rd_file (c_ sf)) && cl); inv H;
+      (eexists; split; [reflexivity|]; unfold R, with_cache; simpl; auto).
+Qed.
+
+(* ADFI_close_file *)
+Lemma sim_close sf si fi sf' :
+  R sf si -> close_file sf fi = Done tt sf' -> rderr (o_ sf') = false ->
+  exists si', close_file si fi = Done tt si' /\ R sf' si'.
+Proof.
+  intros HR H Hfin. pose proof HR as (Hc & Hu & Ho).
+  unfold close_file in *. rewrite <- Hu.
+  destruct (negb (in_use sf)); [discriminate|].
+  assert (HR0 : R (with_os sf (set_sys_err (o_ sf) 0)) (with_os si (set_sys_err (o_ si) 0))).
+  { unfold R, with_os; simpl. repeat split; auto. apply Ro_sys_err; exact Ho. }
+  destruct (flush_buffers (with_os sf (set_sys_err (o_ sf) 0)) fi true) as [[] s1| |] eqn:Hf.
+  - destruct (sys_close (o_ s1)) as [[cr e] o2] eqn:Hcl.
+    destruct (cr <? 0) eqn:Hcr; [discriminate|].
+    inv H. cbn [o_] in Hfin.
+    assert (Hrd1 : rderr (o_ s1) = false).
+    { unfold sys_close in Hcl. destruct (resps (o_ s1)) as [|[n| |x] rs]; inv Hcl; simpl in *; try discriminate; auto. }
+    destruct (sim_flush _ _ _ _ _ HR0 Hf Hrd1) as (s1' & Hf' & (Rc & Ru & Rro)).
+    rewrite Hf'.
+    destruct (sim_close_prim _ _ _ _ _ Rro Hcl Hcr) as (i2 & Hi & Rro2).
+    rewrite Hi, Hcr.
+    eexists. split; [reflexivity|]. unfold R; simpl. rewrite Rc. auto.
+  - destruct (sys_close (o_ s)) as [[cr e0] o2].
+    destruct (cr <? 0); discriminate.
+  - discriminate.
 Qed.
